@@ -50,6 +50,7 @@ pub struct EnvCensus {
     pub empty_batches: u64,
     pub full_batches: u64,
     pub overfull_batches: u64,
+    pub crowded_batches: u64,
     pub same_batch_targets: u64,
     pub multi_instruction_orders: u64,
     pub trades: u64,
@@ -78,7 +79,7 @@ impl EnvCensus {
         macro_rules! add { ($($f:ident),*) => { $( self.$f += o.$f; )* } }
         add!(
             sessions, steps, instructions, new_orders, cancels, modifies, empty_batches, full_batches,
-            overfull_batches, same_batch_targets, multi_instruction_orders, trades, schedules_by_hint,
+            overfull_batches, crowded_batches, same_batch_targets, multi_instruction_orders, trades, schedules_by_hint,
             schedules_by_search, search_candidates, submissions_checked, rejected_submissions,
             rows_compared, asymmetric_rows, deep_level_rows, toggles, toggles_after_submission, steps_while_disabled, market_rejected,
             trades_after_reenable, cross_asset_id_collisions, drains, tie_like_stamps, multi_asset_sessions
@@ -131,7 +132,7 @@ pub fn session<E: SimEnv>(cfg: &SessionCfg, cs: &mut EnvCensus, out: &mut Sessio
             _ => rng.range(100, 100_000),
         }
     };
-    let t0 = if rng.chance(0.3) { rng.below(1 << 40) } else { rng.below(100) };
+    let t0 = if rng.chance(0.3) { rng.below(1 << 40) } else if rng.chance(0.2) { 0 } else { rng.below(100) };
     let mut trading = !rng.chance(if on(E_FLAG) { 0.3 } else { 0.1 });
     let mut env = E::create(t0, &gen.ticks, step_size, trading);
     let mut shadow: Shadow<E::Book> = Shadow::new(t0, &gen.ticks, trading);
@@ -215,10 +216,16 @@ pub fn session<E: SimEnv>(cfg: &SessionCfg, cs: &mut EnvCensus, out: &mut Sessio
             }
         } else {
             let cap = step_size.min(40);
+            // rarely a crowded step: several hundred instructions (batch-size dependent code paths)
+            if step_size >= 1000 && rng.chance(0.02) {
+                cs.crowded_batches += 1;
+                rng.range(257, 700.min(step_size)) as usize
+            } else {
             match rng.below(10) {
                 0 => 0,
                 1 | 2 => cap as usize,
                 _ => rng.range(0, cap) as usize,
+            }
             }
         };
         let mut batch = gen.batch(&mut rng, &env, n);
